@@ -105,6 +105,8 @@ PROGRAMS += [
     "__all__=['exported_one','exported_two']\n__all__=sorted(__all__)\ndef exported_one():\n    return 1\ndef exported_two():\n    return exported_one()+1\ndef internal_helper():\n    return exported_two()\nprint(internal_helper(),__all__)",
     "__all__=['exported_one']\n__all__+=['exported_two']\ndef exported_one():\n    return 1\ndef exported_two():\n    return exported_one()+1\nprint(exported_two(),__all__)",
     "__all__: list=['exported_one']\ndef exported_one():\n    return 1\nprint(exported_one(),__all__)",
+    "_platform_names=['platform_helper']\n__all__=['exported_one', 'EXPORTED_CONSTANT', *_platform_names]\nEXPORTED_CONSTANT=3\ndef exported_one():\n    return EXPORTED_CONSTANT\ndef platform_helper():\n    return exported_one()\nprint(platform_helper(),__all__)",
+    "__all__=('exported_one',)\ndef exported_one():\n    return 1\nprint(exported_one(),__all__)",
     # the same name bound by several imports / several binding forms, with few uses
     "try:\n    from os.path import basename_missing as chosen_function\nexcept ImportError:\n    from os.path import basename as chosen_function\nprint(chosen_function('/a/b'))",
     "def importer():\n    try:\n        from json import dumps\n    except ImportError:\n        from json import dumps\n    return dumps([1])\nprint(importer())",
@@ -145,6 +147,12 @@ PROGRAMS += [
     "def reuse_pattern_name(subject):\n    captured='initial value'\n    rest_of_mapping={}\n    match subject:\n        case {'key': captured, **rest_of_mapping}:\n            pass\n        case [captured, *rest_of_mapping]:\n            pass\n    return captured,rest_of_mapping\nprint(reuse_pattern_name({'key':1,'other':2}),reuse_pattern_name([1,2,3]),reuse_pattern_name(5))",
     "def reuse_import_name():\n    json='not a module'\n    first=json\n    import json\n    return first,json.dumps([1])\nprint(reuse_import_name())",
 ]
+# more renamable names than one-letter names: the rarely used short original names compete with the generated ones
+_many = ['    value_%d=%d' % (k, k) for k in range(60)]
+_uses = '+'.join('value_%d*value_%d+value_%d' % (k, k, k) for k in range(60))
+PROGRAMS.append('def many_names():\n' + '\n'.join(_many) + '\n    i=1000\n    j=2000\n    return ' + _uses + '+i+j\nprint(many_names())')
+PROGRAMS.append('\n'.join('global_value_%d=%d' % (k, k) for k in range(60)) + '\ni=1000\ndef use_globals():\n    return ' +
+                '+'.join('global_value_%d*global_value_%d' % (k, k) for k in range(60)) + '+i\nprint(use_globals())')
 PROGRAMS += list(KNOWN_PROGRAMS)
 # fixed in 7a1a7a4 / f054637: a regression is an ordinary violation
 PROGRAMS.append("value='global value'\ndef outer():\n    value='function value'\n    class Inner:\n        seen=value\n        value='class value'\n    return Inner.seen\nprint(outer())")
